@@ -84,6 +84,11 @@ type OpStats struct {
 type Fault struct {
 	Nth    int  // 1-based index among faultable calls of the operation (0 = none)
 	Sticky bool // every later call of that transaction fails too
+	// Err, when set, is the error handed to clover instead of ErrInjected (e.g. one that wraps the store's own
+	// conflict sentinel). EveryCommit: every Commit after position Nth fails as well, in whatever transaction
+	// (a store that keeps refusing, however often the operation retries).
+	Err         error
+	EveryCommit bool
 }
 
 // Perturb configures schedule perturbation at store calls.
@@ -291,8 +296,11 @@ func (s *Store) call(k Kind, tx *Tx, class string) error {
 		}
 		if k.Faultable() {
 			s.faultCt++
-			if s.fault.Nth > 0 && s.faultCt == s.fault.Nth {
+			if s.fault.Nth > 0 && (s.faultCt == s.fault.Nth || (s.fault.EveryCommit && s.faultCt > s.fault.Nth && k == KCommit)) {
 				err = ErrInjected
+				if s.fault.Err != nil {
+					err = s.fault.Err
+				}
 				s.op.Injected++
 				if s.fault.Sticky && tx != nil {
 					tx.dead = true
